@@ -260,9 +260,20 @@ def _map_to_station_ids(
                     for station_id in sim.s_search[search_geoid]
                 )
 
+                def _enclosed(station_id: StationId) -> bool:
+                    # the search index is coarser than a region finer than the search resolution:
+                    # such a region names only the stations that actually lie inside it
+                    if res <= sim.sim_h3_search_resolution:
+                        return True
+                    station = sim.stations.get(station_id)
+                    if station is None or h3.h3_get_resolution(station.geoid) < res:
+                        return False
+                    return bool(h3.h3_to_parent(station.geoid, res) == k)
+
                 # all of these station ids should get entries managers the provided geoid
                 for station_id in station_ids:
-                    updated.update({station_id: this_update[k]})
+                    if _enclosed(station_id):
+                        updated.update({station_id: this_update[k]})
 
             except ValueError as e:
                 # todo: handle failure here
